@@ -306,3 +306,456 @@ Example status_nonvacuous :
   response_filter s_default [[50;48;49]; [50;88;88]; s_default] 404 = Some true /\
   bundle_of [[50;88;88]; [50;48;49]] [[50;48;49]; [50;88;88]; s_default] 201 = Some [50;88;88].
 Proof. repeat split; vm_compute; reflexivity. Qed.
+
+
+(* ---------- witnesses about expressions ---------- *)
+Definition rx_any : str -> bool := fun _ => true.
+Definition rx_none : str -> str -> option str := fun _ _ => None.
+Definition cx0 : ctx :=
+  {| c_url := [117]; c_method := [103;101;116]; c_status := 200%Z;
+     c_query := Some [([97;46;98], JStr [118])]; c_path := None; c_headers := None;
+     c_body := VNotSet; r_headers := []; r_body := Some (JObj [([105;100], JInt 7); ([120;125;121], JInt 5)]) |}.
+
+Definition e_url_x : str := [36;117;114;108;46;120].                         (* $url.x *)
+Definition e_a_hash_b : str := [97;35;98].                                   (* a#b *)
+Definition e_dotted : rexpr := RReq LQuery [97;46;98] None.                  (* $request.query.a.b *)
+Definition e_ptr_rb : rexpr := RRespBody (Some [47;120;125;121]).            (* $response.body#/x}y *)
+Definition t_emb_body : list titem := [TText [73;68;95]; TEmb (RRespBody None)].   (* ID_{$response.body} *)
+
+(* a string in the grammar (constant text) whose value is not what it denotes: everything after # is dropped *)
+Lemma eval_refuted_hash_text :
+  forallb gitem_ok [TText e_a_hash_b] = true /\
+  eval_str rx_any rx_none cx0 (print_tpl [TText e_a_hash_b]) = OVal (VJ (JStr [97])).
+Proof. split; vm_compute; reflexivity. Qed.
+
+(* ABNF-valid expressions that are rejected *)
+Lemma eval_refuted_dotted_name :
+  abnf_ok e_dotted = true /\ denote rx_none cx0 e_dotted = OVal (VJ (JStr [118])) /\
+  eval_str rx_any rx_none cx0 (print e_dotted) = OParseErr ErrExpr.
+Proof. repeat split; vm_compute; reflexivity. Qed.
+
+Lemma eval_refuted_pointer_brace :
+  abnf_ok e_ptr_rb = true /\ denote rx_none cx0 e_ptr_rb = OVal (VJ (JInt 5)) /\
+  eval_str rx_any rx_none cx0 (print e_ptr_rb) = OParseErr ErrExpr.
+Proof. repeat split; vm_compute; reflexivity. Qed.
+
+Lemma eval_refuted_embedded_body :
+  forallb gitem_ok t_emb_body = true /\ eval_str rx_any rx_none cx0 (print_tpl t_emb_body) = OParseErr ErrExpr.
+Proof. split; vm_compute; reflexivity. Qed.
+
+(* a string outside the grammar that is accepted *)
+Lemma text_ok_head c s : text_ok (c :: s) = true -> c <> DOLLAR /\ c <> LB.
+Proof.
+  unfold text_ok. cbn [forallb]. intros H. apply andb_true_iff in H. destruct H as [H _].
+  unfold mem in H. cbn [existsb] in H. split; intros ->; discriminate.
+Qed.
+
+Lemma url_x_not_in_grammar : ~ in_grammar e_url_x.
+Proof.
+  intros [[e [_ H]]|[t [Hok H]]].
+  - destruct e as [| | |l name rx|p|name rx|p]; try discriminate H.
+  - destruct t as [|i t]; [discriminate H|]. cbn [forallb] in Hok. apply andb_true_iff in Hok. destruct Hok as [Hi _].
+    destruct i as [s|e].
+    + destruct s as [|c s]; [discriminate Hi|]. apply text_ok_head in Hi. cbn in H. inversion H as [Hc]. destruct Hi as [Hi _]. apply Hi. symmetry. exact Hc.
+    + cbn in H. discriminate H.
+Qed.
+
+Lemma rejects_malformed_refuted :
+  ~ in_grammar e_url_x /\ parse rx_any e_url_x = Some (POk [NUrl; NString [46]; NString [120]]).
+Proof. split; [exact url_x_not_in_grammar|vm_compute; reflexivity]. Qed.
+
+(* ---------- link values and the derived step input ---------- *)
+Lemma keep_sendable_in d n v : In (n, v) (keep_sendable d) -> v <> VUnres /\ v <> VJ JNull.
+Proof.
+  induction d as [|[m x] d IH]; [intros []|]. cbn [keep_sendable].
+  destruct (sendable x) as [w|] eqn:S; [|exact IH]. intros [H|H]; [|exact (IH H)]. inversion H. subst.
+  destruct x as [u|]; [|discriminate]. destruct u as [j| | |]; try discriminate; cbn in S.
+  - destruct j; inversion S; split; discriminate.
+  - inversion S. split; discriminate.
+  - inversion S. split; discriminate.
+Qed.
+
+Lemma kwargs_never_unresolvable e c d n v :
+  In (c, d) (kwargs_of e) -> In (n, v) d -> v <> VUnres /\ v <> VJ JNull.
+Proof.
+  unfold kwargs_of. intros Hc Hn. apply in_map_iff in Hc. destruct Hc as [[c' d'] [Heq _]]. inversion Heq. subst.
+  exact (keep_sendable_in _ _ _ Hn).
+Qed.
+
+Lemma assoc_get_in {A} k (l : list (str * A)) v : assoc_get k l = Some v -> In (k, v) l.
+Proof.
+  induction l as [|[k' v'] l IH]; [discriminate|]. cbn [assoc_get]. destruct (str_eqb k k') eqn:E.
+  - intros H. inversion H. apply str_eqb_spec in E. subst. left. reflexivity.
+  - intros H. right. exact (IH H).
+Qed.
+
+Lemma assoc_set_in {A} k (w : A) l n v : In (n, v) (assoc_set k w l) -> (n, v) = (k, w) \/ In (n, v) l.
+Proof.
+  induction l as [|[k' v'] l IH]; cbn [assoc_set].
+  - intros [H|[]]. left. symmetry. exact H.
+  - destruct (str_eqb k k').
+    + intros [H|H]; [left; symmetry; exact H|right; right; exact H].
+    + intros [H|H]; [right; left; exact H|]. destruct (IH H) as [G|G]; [left; exact G|right; right; exact G].
+Qed.
+
+Lemma assoc_update_in {A} (upd base : list (str * A)) n v :
+  In (n, v) (assoc_update base upd) -> In (n, v) base \/ In (n, v) upd.
+Proof.
+  unfold assoc_update. revert base. induction upd as [|[k w] upd IH]; intros base H; [left; exact H|].
+  cbn [fold_left] in H. destruct (IH _ H) as [G|G].
+  - cbn [fst snd] in G. destruct (assoc_set_in _ _ _ _ _ G) as [E|E]; [right; left; symmetry; exact E|left; exact E].
+  - right. right. exact G.
+Qed.
+
+Lemma unresolvable_never_sent_params kw c gen d n v :
+  (forall c' d' n' v', In (c', d') kw -> In (n', v') d' -> v' <> VUnres) ->
+  (forall excl g m w, gen excl = Some g -> In (m, w) g -> w <> VUnres) ->
+  final_container kw c gen = Some d -> In (n, v) d -> v <> VUnres.
+Proof.
+  intros Hkw Hgen. unfold final_container, parameters_value.
+  match goal with |- context [match ?X with _ => _ end] => destruct X as [ex|] eqn:G end.
+  - apply assoc_get_in in G. destruct ex as [|x ex].
+    + intros H Hin. exact (Hgen _ _ _ _ H Hin).
+    + destruct (gen (map fst (x :: ex))) as [new|] eqn:N; intros H Hin; inversion H; subst.
+      * destruct (assoc_update_in _ _ _ _ Hin) as [K|K]; [exact (Hkw _ _ _ _ G K)|exact (Hgen _ _ _ _ N K)].
+      * exact (Hkw _ _ _ _ G Hin).
+  - intros H Hin. exact (Hgen _ _ _ _ H Hin).
+Qed.
+
+Lemma unresolvable_never_sent rx_ok rx_extract cx l c gen d n v :
+  (forall excl g m w, gen excl = Some g -> In (m, w) g -> w <> VUnres) ->
+  final_container (kwargs_of (extract_parameters rx_ok rx_extract cx l)) c gen = Some d -> In (n, v) d -> v <> VUnres.
+Proof.
+  intros Hgen. apply unresolvable_never_sent_params; [|exact Hgen].
+  intros c' d' n' v' H1 H2. exact (proj1 (kwargs_never_unresolvable _ _ _ _ _ H1 H2)).
+Qed.
+
+Lemma unresolvable_never_sent_body merge xb g : g <> VUnres -> final_body merge (body_ready xb) g <> VUnres.
+Proof.
+  intros Hg. unfold final_body. destruct (body_ready xb) as [new|] eqn:R; [|exact Hg].
+  assert (Hn : new <> VUnres).
+  { unfold body_ready in R. destruct xb as [[v|]|]; try discriminate. destruct (is_unres v) eqn:U; [discriminate|].
+    inversion R. subst. intros ->. discriminate. }
+  destruct merge; [|exact Hn]. destruct g as [[]| | |]; try exact Hn. destruct new as [[]| | |]; try exact Hn. discriminate.
+Qed.
+
+Lemma unresolved_body_is_generated merge g : final_body merge (body_ready (Some (XOk VUnres))) g = g
+  /\ final_body merge (body_ready (Some XErr)) g = g /\ final_body merge (body_ready None) g = g.
+Proof. repeat split. Qed.
+
+(* generated names different from n leave the link value in place *)
+Lemma assoc_get_none_set {A} n k (w : A) l : assoc_get n l = None -> str_eqb n k = false -> assoc_get n (assoc_set k w l) = None.
+Proof. intros H E. rewrite assoc_get_set_other by exact E. exact H. Qed.
+
+Lemma assoc_update_keep {A} (upd base : list (str * A)) n v :
+  assoc_get n base = Some v -> assoc_get n upd = None -> assoc_get n (assoc_update base upd) = Some v.
+Proof.
+  unfold assoc_update. revert base. induction upd as [|[k w] upd IH]; intros base Hb Hu; [exact Hb|].
+  cbn [assoc_get] in Hu. destruct (str_eqb n k) eqn:E; [discriminate|].
+  cbn [fold_left fst snd]. apply IH; [|exact Hu]. rewrite assoc_get_set_other by exact E. exact Hb.
+Qed.
+
+Lemma link_values_override_generated kw c d n v gen :
+  assoc_get c kw = Some d -> assoc_get n d = Some v ->
+  (forall g, gen (map fst d) = Some g -> assoc_get n g = None) ->
+  exists f, final_container kw c gen = Some f /\ assoc_get n f = Some v.
+Proof.
+  intros Hc Hn Hg. unfold final_container, parameters_value.
+  match goal with |- context [match ?X with _ => _ end] => change X with (assoc_get c kw) end. rewrite Hc.
+  destruct d as [|x d]; [discriminate|].
+  destruct (gen (map fst (x :: d))) as [new|] eqn:N.
+  - exists (assoc_update (x :: d) new). split; [reflexivity|]. apply assoc_update_keep; [exact Hn|exact (Hg _ eq_refl)].
+  - exists (x :: d). split; [reflexivity|exact Hn].
+Qed.
+
+(* body: replaced, or merged with the link's members winning *)
+Lemma assoc_update_wins {A} (upd : list (str * A)) : forall base k w,
+  NoDup (map fst upd) -> assoc_get k upd = Some w -> assoc_get k (assoc_update base upd) = Some w.
+Proof.
+  unfold assoc_update. induction upd as [|[k1 w1] upd IH]; intros base k w Hnd Hk; [discriminate|].
+  cbn [map fst] in Hnd. inversion Hnd as [|? ? Hnotin Hnd']. subst.
+  cbn [assoc_get] in Hk. cbn [fold_left fst snd]. destruct (str_eqb k k1) eqn:E.
+  - inversion Hk. subst. apply str_eqb_spec in E. subst k.
+    assert (Hnone : assoc_get k1 upd = None).
+    { destruct (assoc_get k1 upd) eqn:G; [|reflexivity]. apply assoc_get_in in G. exfalso. apply Hnotin.
+      apply in_map_iff. exists (k1, a). split; [reflexivity|exact G]. }
+    apply (assoc_update_keep upd (assoc_set k1 w base) k1 w); [apply assoc_get_set_same|exact Hnone].
+  - apply IH; assumption.
+Qed.
+
+Lemma body_override merge new g :
+  is_unres new = false ->
+  (merge = false -> final_body merge (body_ready (Some (XOk new))) g = new) /\
+  (forall gm nm k w, merge = true -> g = VJ (JObj gm) -> new = VJ (JObj nm) -> NoDup (map fst nm) -> assoc_get k nm = Some w ->
+     exists fm, final_body merge (body_ready (Some (XOk new))) g = VJ (JObj fm) /\ assoc_get k fm = Some w) /\
+  (merge = true -> (forall gm nm, ~ (g = VJ (JObj gm) /\ new = VJ (JObj nm))) -> final_body merge (body_ready (Some (XOk new))) g = new).
+Proof.
+  intros U. unfold body_ready. rewrite U. repeat split.
+  - intros ->. reflexivity.
+  - intros gm nm k w -> -> -> Hnd Hk. exists (assoc_update gm nm). split; [reflexivity|]. apply assoc_update_wins; assumption.
+  - intros -> H. cbn [final_body]. destruct g as [[]| | |]; try reflexivity. destruct new as [[]| | |]; try reflexivity.
+    exfalso. apply (H kvs kvs0). split; reflexivity.
+Qed.
+
+(* the header container is case-insensitive but exclusion from generation is not *)
+Definition kw_case : list (str * dict) := [(s_headers, [([120;45;116], VJ (JStr [80;79;83;84]))])].    (* x-t: POST *)
+Definition gen_case : list str -> option dict :=
+  fun excl => Some (filter (fun kv => negb (in_strs (fst kv) excl)) [([88;45;84], VJ (JStr [103;104]))]).   (* X-T: gh *)
+
+Lemma override_refuted_header_case :
+  (forall excl g n, gen_case excl = Some g -> In n excl -> assoc_get n g = None) /\
+  exists f, final_headers kw_case gen_case = Some f /\ ci_lookup [120;45;116] f = Some (VJ (JStr [103;104])).
+Proof.
+  split.
+  - intros excl g n H Hin. unfold gen_case in H. inversion H. subst. cbn [filter fst].
+    destruct (in_strs [88;45;84] excl) eqn:E; cbn [negb]; [reflexivity|]. cbn [assoc_get].
+    destruct (str_eqb n [88;45;84]) eqn:E2; [|reflexivity]. apply str_eqb_spec in E2. subst n.
+    unfold in_strs in E. exfalso. assert (existsb (str_eqb [88;45;84]) excl = true); [|congruence].
+    apply existsb_exists. exists [88;45;84]. split; [exact Hin|reflexivity].
+  - eexists. split; vm_compute; reflexivity.
+Qed.
+
+Example override_nonvacuous :
+  exists f, final_container [([113], [([97], VJ (JInt 1))])] [113] (fun _ => Some [([98], VJ (JInt 2))]) = Some f
+            /\ assoc_get [97] f = Some (VJ (JInt 1)) /\ assoc_get [98] f = Some (VJ (JInt 2)).
+Proof. eexists. repeat split. Qed.
+
+
+(* ---------- the lexer on runs of ordinary characters ---------- *)
+Lemma is_stop_false c : is_stop c = false ->
+  N.eqb c DOLLAR = false /\ N.eqb c DOT = false /\ N.eqb c LB = false /\ N.eqb c RB = false /\ N.eqb c HASH = false.
+Proof.
+  unfold is_stop, mem. cbn [existsb]. intros H.
+  repeat (apply orb_false_iff in H; destruct H as [? H]). repeat split; assumption.
+Qed.
+
+Lemma lex_fresh_str c s pos : is_stop c = false -> lex (c :: s) pos None = lex s (S pos) (Some (TStr, [c])).
+Proof. intros H. destruct (is_stop_false _ H) as [H1 [H2 [H3 [H4 H5]]]]. cbn [lex]. rewrite H1, H2, H3, H4, H5. reflexivity. Qed.
+
+Lemma lex_step_cont ty acc x s pos : stops ty x = false ->
+  lex (x :: s) pos (Some (ty, acc)) = lex s (S pos) (Some (ty, x :: acc)).
+Proof. intros H. cbn [lex]. rewrite H. reflexivity. Qed.
+
+Lemma lex_step_stop ty acc c rest pos : stops ty c = true ->
+  lex (c :: rest) pos (Some (ty, acc)) = tok ty (rev acc) (pos - 1) :: lex (c :: rest) pos None.
+Proof. intros H. cbn [lex]. rewrite H. reflexivity. Qed.
+
+Lemma lex_run_end ty s : forall pos acc, forallb (fun c => negb (stops ty c)) s = true ->
+  lex s pos (Some (ty, acc)) = [tok ty (rev acc ++ s) (pos + length s - 1)].
+Proof.
+  induction s as [|c s IH]; intros pos acc H.
+  - cbn [lex length]. rewrite app_nil_r, Nat.add_0_r. reflexivity.
+  - cbn [forallb] in H. apply andb_true_iff in H. destruct H as [Hc Hs]. apply negb_true_iff in Hc.
+    rewrite (lex_step_cont _ _ _ _ _ Hc). rewrite (IH _ _ Hs). cbn [rev length]. rewrite <- app_assoc. cbn [app].
+    replace (S pos + length s - 1)%nat with (pos + S (length s) - 1)%nat by lia. reflexivity.
+Qed.
+
+Lemma lex_run_stop ty s : forall pos acc c rest, forallb (fun c => negb (stops ty c)) s = true -> stops ty c = true ->
+  lex (s ++ c :: rest) pos (Some (ty, acc)) = tok ty (rev acc ++ s) (pos + length s - 1) :: lex (c :: rest) (pos + length s) None.
+Proof.
+  induction s as [|x s IH]; intros pos acc c rest H Hc.
+  - cbn [app length]. rewrite app_nil_r, !Nat.add_0_r. apply lex_step_stop. exact Hc.
+  - cbn [forallb] in H. apply andb_true_iff in H. destruct H as [Hx Hs]. apply negb_true_iff in Hx.
+    cbn [app]. rewrite (lex_step_cont _ _ _ _ _ Hx). rewrite (IH _ _ _ _ Hs Hc). cbn [rev length]. rewrite <- app_assoc. cbn [app].
+    replace (S pos + length s)%nat with (pos + S (length s))%nat by lia.
+    replace (pos + S (length s) - 1)%nat with (pos + S (length s) - 1)%nat by lia. reflexivity.
+Qed.
+
+Lemma no_stop_run ty s : ty <> TPtr -> no_stop s = true -> forallb (fun c => negb (stops ty c)) s = true.
+Proof. intros Hty H. unfold no_stop in H. destruct ty; try exact H. congruence. Qed.
+
+Lemma no_rb_run s : no_rb s = true -> forallb (fun c => negb (stops TPtr c)) s = true.
+Proof. intros H. exact H. Qed.
+
+Lemma lex_fresh_hash s pos : lex (HASH :: s) pos None = lex s (S pos) (Some (TPtr, [HASH])).
+Proof. reflexivity. Qed.
+
+Lemma lex_regex_prefix pat pos :
+  lex (114 :: 101 :: 103 :: 101 :: 120 :: 58 :: pat) pos (Some (TPtr, [HASH]))
+  = lex pat (S (S (S (S (S (S pos)))))) (Some (TPtr, [58; 120; 101; 103; 101; 114; HASH])).
+Proof. reflexivity. Qed.
+
+(* name [#regex:pattern] from a token boundary *)
+Definition rx_tokens (rx : option str) (e : nat) : list token :=
+  match rx with Some pat => [tok TPtr (s_regex ++ pat) (e + 7 + length pat)%nat] | None => [] end.
+
+Lemma lex_name_rx rx_ok name rx k : name_ok name = true -> rx_region rx_ok rx = true ->
+  lex (name ++ print_rx rx) k None = tok TStr name (k + length name - 1) :: rx_tokens rx (k + length name - 1)%nat.
+Proof.
+  intros Hn Hr. destruct name as [|c name]; [discriminate|]. unfold name_ok, no_stop in Hn. cbn [forallb] in Hn.
+  apply andb_true_iff in Hn. destruct Hn as [Hc Hs]. apply negb_true_iff in Hc.
+  cbn [app]. rewrite (lex_fresh_str _ _ _ Hc). destruct rx as [pat|]; cbn [print_rx rx_tokens].
+  - unfold rx_region in Hr. apply andb_true_iff in Hr. destruct Hr as [Hp _].
+    unfold s_regex. cbn [app]. rewrite (lex_run_stop TStr name (S k) [c] HASH); [|exact Hs|reflexivity].
+    cbn [rev app length]. replace (S k + length name - 1)%nat with (k + S (length name) - 1)%nat by lia. f_equal.
+    rewrite lex_fresh_hash, lex_regex_prefix.
+    rewrite (lex_run_end TPtr pat _ _ (no_rb_run _ Hp)). cbn [rev app].
+    replace (S (S (S (S (S (S (S (S k + length name))))))) + length pat - 1)%nat with (k + S (length name) - 1 + 7 + length pat)%nat by lia.
+    reflexivity.
+  - rewrite app_nil_r. rewrite (lex_run_end TStr name _ _ Hs). cbn [rev app length].
+    replace (S k + length name - 1)%nat with (k + S (length name) - 1)%nat by lia. reflexivity.
+Qed.
+
+Lemma skipn_length_app {A} (a b : list A) : skipn (length a) (a ++ b) = b.
+Proof. induction a as [|x a IH]; [reflexivity|exact IH]. Qed.
+
+Lemma take_extractor_printed rx_ok pre name rx e e2 :
+  rx_region rx_ok rx = true -> S e = (length pre + length name)%nat ->
+  take_extractor rx_ok (pre ++ name ++ print_rx rx) (rx_tokens rx e2) e = POk (rx, []).
+Proof.
+  intros Hr He. unfold take_extractor. rewrite He, app_assoc, <- app_length, skipn_length_app.
+  destruct rx as [pat|]; cbn [print_rx rx_tokens]; [|reflexivity].
+  unfold rx_region in Hr. apply andb_true_iff in Hr. destruct Hr as [_ Hok].
+  unfold s_regex. cbn [app]. change (N.eqb 35 RB) with false. cbn [tv tok]. cbn [starts_with N.eqb Pos.eqb andb skipn].
+  rewrite Hok. reflexivity.
+Qed.
+
+(* ---------- the parser reads a printed expression back ---------- *)
+Arguments take_extractor : simpl never.
+
+Lemma parse_param_printed rx_ok pre name rx (mk : str -> option str -> node) k :
+  name_ok name = true -> rx_region rx_ok rx = true -> S k = length pre ->
+  parse_param rx_ok (pre ++ name ++ print_rx rx)
+    (tok TDot [DOT] k :: tok TStr name (S k + length name - 1) :: rx_tokens rx (S k + length name - 1)) mk
+  = POk (mk name rx, []).
+Proof.
+  intros Hn Hr Hk. unfold parse_param. cbn [skip_dot is_ty tkind tok take_string tend tv].
+  rewrite (take_extractor_printed rx_ok pre name rx _ _ Hr); [reflexivity|].
+  destruct name; [discriminate|]. cbn [length]. lia.
+Qed.
+
+Lemma parse_req_param rx_ok l name rx : name_ok name = true -> rx_region rx_ok rx = true ->
+  parse rx_ok (print (RReq l name rx)) = Some (POk [NReq (loc_str l) name rx]).
+Proof.
+  intros Hn Hr. unfold parse, tokenize.
+  destruct l; cbn [print loc_str].
+  - set (pre := s_request ++ [DOT] ++ s_query ++ [DOT]).
+    replace (s_request ++ [DOT] ++ s_query ++ [DOT] ++ name ++ print_rx rx) with (pre ++ name ++ print_rx rx)
+      by (unfold pre; rewrite <- !app_assoc; reflexivity).
+    assert (L : lex (pre ++ name ++ print_rx rx) 0 None =
+                tok TVar s_request 7 :: tok TDot [DOT] 8 :: tok TStr s_query 13 :: tok TDot [DOT] 14 :: lex (name ++ print_rx rx) 15 None) by reflexivity.
+    rewrite L, (lex_name_rx rx_ok _ _ _ Hn Hr).
+    assert (Len : forall t, length (t :: rx_tokens rx (15 + length name - 1)) = (1 + length (rx_tokens rx 0))%nat) by (intros; destruct rx; reflexivity).
+    cbn [length]. cbn [parse_loop tkind tok].
+    unfold parse_variable. cbn [tv tok]. change (str_eqb s_request s_url) with false. change (str_eqb s_request s_method) with false.
+    change (str_eqb s_request s_status) with false. change (str_eqb s_request s_request) with true. cbn iota.
+    unfold parse_request. cbn [skip_dot is_ty tkind tok tv]. change (in_strs s_query [s_query; s_path; s_header]) with true. cbn iota.
+    rewrite (parse_param_printed rx_ok pre name rx (NReq s_query) 14 Hn Hr eq_refl).
+    destruct rx; reflexivity.
+  - set (pre := s_request ++ [DOT] ++ s_path ++ [DOT]).
+    replace (s_request ++ [DOT] ++ s_path ++ [DOT] ++ name ++ print_rx rx) with (pre ++ name ++ print_rx rx)
+      by (unfold pre; rewrite <- !app_assoc; reflexivity).
+    assert (L : lex (pre ++ name ++ print_rx rx) 0 None =
+                tok TVar s_request 7 :: tok TDot [DOT] 8 :: tok TStr s_path 12 :: tok TDot [DOT] 13 :: lex (name ++ print_rx rx) 14 None) by reflexivity.
+    rewrite L, (lex_name_rx rx_ok _ _ _ Hn Hr).
+    cbn [length]. cbn [parse_loop tkind tok].
+    unfold parse_variable. cbn [tv tok]. change (str_eqb s_request s_url) with false. change (str_eqb s_request s_method) with false.
+    change (str_eqb s_request s_status) with false. change (str_eqb s_request s_request) with true. cbn iota.
+    unfold parse_request. cbn [skip_dot is_ty tkind tok tv]. change (in_strs s_path [s_query; s_path; s_header]) with true. cbn iota.
+    rewrite (parse_param_printed rx_ok pre name rx (NReq s_path) 13 Hn Hr eq_refl).
+    destruct rx; reflexivity.
+  - set (pre := s_request ++ [DOT] ++ s_header ++ [DOT]).
+    replace (s_request ++ [DOT] ++ s_header ++ [DOT] ++ name ++ print_rx rx) with (pre ++ name ++ print_rx rx)
+      by (unfold pre; rewrite <- !app_assoc; reflexivity).
+    assert (L : lex (pre ++ name ++ print_rx rx) 0 None =
+                tok TVar s_request 7 :: tok TDot [DOT] 8 :: tok TStr s_header 14 :: tok TDot [DOT] 15 :: lex (name ++ print_rx rx) 16 None) by reflexivity.
+    rewrite L, (lex_name_rx rx_ok _ _ _ Hn Hr).
+    cbn [length]. cbn [parse_loop tkind tok].
+    unfold parse_variable. cbn [tv tok]. change (str_eqb s_request s_url) with false. change (str_eqb s_request s_method) with false.
+    change (str_eqb s_request s_status) with false. change (str_eqb s_request s_request) with true. cbn iota.
+    unfold parse_request. cbn [skip_dot is_ty tkind tok tv]. change (in_strs s_header [s_query; s_path; s_header]) with true. cbn iota.
+    rewrite (parse_param_printed rx_ok pre name rx (NReq s_header) 15 Hn Hr eq_refl).
+    destruct rx; reflexivity.
+Qed.
+
+Lemma parse_resp_header rx_ok name rx : name_ok name = true -> rx_region rx_ok rx = true ->
+  parse rx_ok (print (RRespHeader name rx)) = Some (POk [NRespHeader name rx]).
+Proof.
+  intros Hn Hr. unfold parse, tokenize. cbn [print].
+  set (pre := s_response ++ [DOT] ++ s_header ++ [DOT]).
+  replace (s_response ++ [DOT] ++ s_header ++ [DOT] ++ name ++ print_rx rx) with (pre ++ name ++ print_rx rx)
+    by (unfold pre; rewrite <- !app_assoc; reflexivity).
+  assert (L : lex (pre ++ name ++ print_rx rx) 0 None =
+              tok TVar s_response 8 :: tok TDot [DOT] 9 :: tok TStr s_header 15 :: tok TDot [DOT] 16 :: lex (name ++ print_rx rx) 17 None) by reflexivity.
+  rewrite L, (lex_name_rx rx_ok _ _ _ Hn Hr).
+  cbn [length]. cbn [parse_loop tkind tok].
+  unfold parse_variable. cbn [tv tok]. change (str_eqb s_response s_url) with false. change (str_eqb s_response s_method) with false.
+  change (str_eqb s_response s_status) with false. change (str_eqb s_response s_request) with false.
+  change (str_eqb s_response s_response) with true. cbn iota.
+  unfold parse_response. cbn [skip_dot is_ty tkind tok tv]. change (str_eqb s_header s_header) with true. cbn iota.
+  rewrite (parse_param_printed rx_ok pre name rx NRespHeader 16 Hn Hr eq_refl).
+  destruct rx; reflexivity.
+Qed.
+
+Lemma parse_body_ptr rx_ok (resp : bool) p : no_rb p = true ->
+  parse rx_ok (print (if resp then RRespBody (Some p) else RReqBody (Some p)))
+  = Some (POk [if resp then NRespBody (Some (HASH :: p)) else NReqBody (Some (HASH :: p))]).
+Proof.
+  intros Hp. unfold parse, tokenize. destruct resp; cbn [print print_ptr].
+  - assert (L : lex (s_response ++ [DOT] ++ s_body ++ HASH :: p) 0 None =
+                tok TVar s_response 8 :: tok TDot [DOT] 9 :: tok TStr s_body 13 :: lex p 15 (Some (TPtr, [HASH]))) by reflexivity.
+    rewrite L, (lex_run_end TPtr p _ _ (no_rb_run _ Hp)). reflexivity.
+  - assert (L : lex (s_request ++ [DOT] ++ s_body ++ HASH :: p) 0 None =
+                tok TVar s_request 7 :: tok TDot [DOT] 8 :: tok TStr s_body 12 :: lex p 14 (Some (TPtr, [HASH]))) by reflexivity.
+    rewrite L, (lex_run_end TPtr p _ _ (no_rb_run _ Hp)). reflexivity.
+Qed.
+
+Lemma parse_print rx_ok e : simple_expr rx_ok e = true -> parse rx_ok (print e) = Some (POk [node_of e]).
+Proof.
+  destruct e as [| | |l name rx|p|name rx|p]; cbn [simple_expr]; intros H; try reflexivity.
+  - apply andb_true_iff in H. destruct H as [Hn Hr]. exact (parse_req_param rx_ok l name rx Hn Hr).
+  - destruct p as [p|]; [|reflexivity]. exact (parse_body_ptr rx_ok false p H).
+  - apply andb_true_iff in H. destruct H as [Hn Hr]. exact (parse_resp_header rx_ok name rx Hn Hr).
+  - destruct p as [p|]; [|reflexivity]. exact (parse_body_ptr rx_ok true p H).
+Qed.
+
+Lemma extract_agree rx_extract rx v : apply_extractor rx_extract rx v = denote_extract rx_extract rx v.
+Proof.
+  unfold apply_extractor, denote_extract. destruct rx as [pat|]; [|reflexivity]. destruct v; try reflexivity.
+  destruct (rx_extract pat s) as [[|c g]|]; reflexivity.
+Qed.
+
+Lemma eval_node_denote rx_extract cx e : ptr_strict cx e = true ->
+  eval_node rx_extract cx (node_of e) = denote rx_extract cx e.
+Proof.
+  intros Hp. destruct e as [| | |l name rx|p|name rx|p]; cbn [node_of]; try reflexivity.
+  - destruct l; cbn [eval_node denote loc_str];
+      [change (str_eqb s_query s_query) with true; change (str_eqb s_query s_header) with false
+      |change (str_eqb s_path s_query) with false; change (str_eqb s_path s_path) with true; change (str_eqb s_path s_header) with false
+      |change (str_eqb s_header s_query) with false; change (str_eqb s_header s_path) with false; change (str_eqb s_header s_header) with true];
+      cbn iota;
+      match goal with |- match ?X with _ => _ end = _ => destruct X as [[]|]; try reflexivity; apply extract_agree end.
+  - destruct p as [p|]; cbn [option_map eval_node denote denote_ptr].
+    + cbn [ptr_strict] in Hp. destruct (c_body cx) as [doc| | |]; try reflexivity.
+      apply andb_true_iff in Hp. destruct Hp as [Hp Hs]. apply andb_true_iff in Hp. destruct Hp as [Hl Hv].
+      apply negb_true_iff in Hl. cbn [tl]. f_equal. apply pointer_rfc6901_partial; assumption.
+    + destruct (c_body cx); reflexivity.
+  - cbn [eval_node denote]. destruct (assoc_get (lower_ascii name) (r_headers cx)) as [[|v vs]|]; try reflexivity. apply extract_agree.
+  - cbn [eval_node denote]. destruct (r_body cx) as [doc|] eqn:B; [|reflexivity]. destruct p as [p|]; cbn [option_map denote_ptr]; [|reflexivity].
+    cbn [ptr_strict] in Hp. rewrite B in Hp.
+    apply andb_true_iff in Hp. destruct Hp as [Hp Hs]. apply andb_true_iff in Hp. destruct Hp as [Hl Hv].
+    apply negb_true_iff in Hl. cbn [tl]. f_equal. apply pointer_rfc6901_partial; assumption.
+Qed.
+
+Lemma eval_denotes_partial rx_ok rx_extract cx e :
+  simple_expr rx_ok e = true -> ptr_strict cx e = true ->
+  eval_str rx_ok rx_extract cx (print e) = denote rx_extract cx e.
+Proof.
+  intros Hs Hp. unfold eval_str. rewrite (parse_print rx_ok e Hs). cbn [eval_nodes].
+  rewrite (eval_node_denote rx_extract cx e Hp). destruct (denote rx_extract cx e) as [v| |]; reflexivity.
+Qed.
+
+(* non-vacuity: an expression with a regex extractor and one with an escaped pointer *)
+Definition rx_ok1 : str -> bool := fun p => str_eqb p [40;46;41].     (* (.) *)
+Definition rx_ex1 : str -> str -> option str := fun _ s => match s with c :: _ => Some [c] | [] => None end.
+Definition cx1 : ctx :=
+  {| c_url := [117]; c_method := [103;101;116]; c_status := 201%Z;
+     c_query := Some [([113], JStr [97;98])]; c_path := None; c_headers := None;
+     c_body := VNotSet; r_headers := []; r_body := Some (JObj [([97;47;98], JArr [JInt 4; JInt 5])]) |}.
+Example eval_denotes_nonvacuous :
+  simple_expr rx_ok1 (RReq LQuery [113] (Some [40;46;41])) = true /\
+  eval_str rx_ok1 rx_ex1 cx1 (print (RReq LQuery [113] (Some [40;46;41]))) = OVal (VJ (JStr [97])) /\
+  simple_expr rx_ok1 (RRespBody (Some [47;97;126;49;98;47;49])) = true /\
+  ptr_strict cx1 (RRespBody (Some [47;97;126;49;98;47;49])) = true /\
+  eval_str rx_ok1 rx_ex1 cx1 (print (RRespBody (Some [47;97;126;49;98;47;49]))) = OVal (VJ (JInt 5)).
+Proof. repeat split; vm_compute; reflexivity. Qed.
